@@ -437,6 +437,58 @@ U_WT = Unit(P + '/Wire-transforms', ['Wire.rotate', 'Wire.scale', 'Wire.translat
                       Canary('translate-moves-one-end', 'Wire.translate', _TranslateOneEnd, [P + '/Wire-transforms/translate/both'])])
 
 
+# ================================================================ Curve.rotate / scale / translate (Arc, Helix)
+def t_curve_transform(eng):
+    """the segment ends and the wire radius of a curve after a transformation: scaling multiplies every end point AND the
+    CURRENT radius (a curve may have been scaled before: its current radius is not its unscaled one); rotation and translation
+    move the points and leave the radius."""
+    n = P + '/Curve-transforms/'
+    c = SObj('Arc', label='curve')
+    pts = NDArr([[fresh_real('q%d%s' % (k, ax)) for ax in 'xyz'] for k in range(2)])
+    r0, ru = fresh_real('r'), fresh_real('r_unscaled')
+    c.fields.update({'segends': pts, '_r': r0, 'r_unscaled': ru})
+    c.fresh = True
+    eng.inline.update(['Rotation_Matrix.apply'])
+    which = eng.choose(3)
+    if which == 0:
+        rm = SObj('Rotation_Matrix', label='rm')
+        M = NDArr([[fresh_real('m%d%d' % (i, j)) for j in range(3)] for i in range(3)])
+        rm.fields['m'] = M
+        eng.call_qual('Curve.rotate', [c, rm])
+        want = [eng.matmul(M, NDArr(list(row))) for row in pts.data]
+        want = [w.data for w in want]
+        er = r0
+    elif which == 1:
+        f = fresh_real('factor')
+        eng.call_qual('Curve.scale', [c, f])
+        want = [[r_mul(x, f) for x in row] for row in pts.data]
+        er = r_mul(r0, f)
+    else:
+        t = vec('t')
+        eng.call_qual('Curve.translate', [c, t])
+        want = [[r_add(x, y) for x, y in zip(row, t.data)] for row in pts.data]
+        er = r0
+    nm = ['rotate', 'scale', 'translate'][which]
+    eng.cover('curve-transform%d' % which)
+    got = c.fields.get('segends')
+    ok = isinstance(got, NDArr) and got.shape == (2, 3)
+    eng.oblige(n + nm + '/every-segment-end-transformed', ok and bterm(b_and(*[num_eq(got.data[k][j], want[k][j]) for k in range(2) for j in range(3)])))
+    eng.oblige(n + nm + '/radius-' + ('scaled-with-the-same-factor' if which == 1 else 'unchanged'), num_eq(c.fields['_r'], er))
+
+
+class _CurveScaleFromUnscaled(ast.NodeTransformer):
+    def visit_Assign(self, node):
+        if ast.unparse(node.targets[0]) == 'self._r' and 'factor' in ast.unparse(node.value):
+            node.value = ast.parse('self.r_unscaled * factor').body[0].value
+        return node
+
+
+U_CVT = Unit(P + '/Curve-transforms', ['Curve.rotate', 'Curve.scale', 'Curve.translate'], t_curve_transform, SCH,
+             notes='two segment ends, all values symbolic; the current radius and the unscaled radius are independent',
+             canaries=[Canary('curve-radius-scaled-from-the-unscaled-radius', 'Curve.scale', _CurveScaleFromUnscaled,
+                              [P + '/Curve-transforms/scale/radius'])])
+
+
 # ================================================================ Geo_Container.rotate / translate / scale
 def t_container_transform(eng):
     n = P + '/Geo_Container-transforms/'
@@ -1128,4 +1180,4 @@ U_TMIN = Unit(P + '/taper-effective-minimum', ['taper1', 'taper2'], t_taper_mini
               canaries=[Canary('taper1-minimum-replaces-the-radius-floor', 'taper1', _MinOr, [P + '/taper1[effective minimum]/']),
                         Canary('taper2-minimum-replaces-the-radius-floor', 'taper2', _MinOr, [P + '/taper2[effective minimum]/'])])
 
-UNITS = [U_SEG, U_EQ, U_CURVE, U_ARC, U_ROT, U_WT, U_CT, U_HELIX, U_TLOOP, U_TPRE, U_TGROW, U_T2GROW, U_TMIRROR, U_TMIN]
+UNITS = [U_SEG, U_EQ, U_CURVE, U_ARC, U_ROT, U_WT, U_CVT, U_CT, U_HELIX, U_TLOOP, U_TPRE, U_TGROW, U_T2GROW, U_TMIRROR, U_TMIN]
